@@ -164,6 +164,10 @@ theorem encloser_before_address (n : Net) (a : Addr) (hv : n.ver = a.ver)
     exact tupleCmp_head_lt _ _ _ _ (by rw [← hv]; omega)
 
 example : lt (.net ⟨4, 0x01020000, 16⟩) (.net ⟨4, 0x01020305, 24⟩) = true := by decide
+/-- the hypotheses of `encloser_first` on a concrete pair with the same first address -/
+example : lt (.net ⟨4, 0x01020007, 16⟩) (.net ⟨4, 0x01020005, 24⟩) = true :=
+  encloser_first _ _ ⟨Or.inl rfl, by decide, by decide⟩ ⟨Or.inl rfl, by decide, by decide⟩ rfl
+    (by decide) (by decide) (by decide)
 example : lt (.net ⟨4, 0x01020300, 24⟩) (.addr ⟨4, 0x01020300⟩) = true := by decide
 example : lt (.addr ⟨4, 0xffffffff⟩) (.net ⟨6, 0, 0⟩) = true := by decide
 
